@@ -30,7 +30,8 @@ def scratch():
     if _scratch is None:
         base = '/var/tmp'
         _scratch = tempfile.mkdtemp(prefix='cimba-cv-', dir=base)
-        atexit.register(lambda: shutil.rmtree(_scratch, ignore_errors=True))
+        if not os.environ.get('CV_KEEP'):
+            atexit.register(lambda: shutil.rmtree(_scratch, ignore_errors=True))
     return _scratch
 
 
@@ -204,7 +205,7 @@ def run_cbmc_group(g, keep=False):
             return res
         cur = nxt
     outjson = os.path.join(wd, 'out.json')
-    cmd = ['cbmc', cur, '--json-ui', '--trace', '--drop-unused-functions', '--no-malloc-may-fail']
+    cmd = ['cbmc', cur, '--json-ui', '--trace', '--drop-unused-functions']
     # (--slice-formula is NOT used: it made the z3 run of the generator bootstrap go from 0.6 s to > 5 min)
     if not g.no_standard_checks:
         cmd += CHECK_FLAGS
